@@ -1,0 +1,87 @@
+//go:build verif
+
+// Verification hook (build tag "verif"): a hidden "garble verif-oracle" mode that
+// serves a line protocol on stdin/stdout and calls garble's real, unexported
+// functions on the decoded arguments. Only compiled with -tags verif.
+
+package main
+
+import (
+	"bufio"
+	"encoding/hex"
+	"fmt"
+	"os"
+	"strconv"
+	"strings"
+)
+
+// verifOps maps an operation name to its handler; sibling verif_oracle_*.go files register more.
+var verifOps = map[string]func(args []string) string{}
+
+func init() {
+	if len(os.Args) >= 2 && os.Args[1] == "verif-oracle" {
+		verifServe()
+		os.Exit(0)
+	}
+}
+
+func verifHex(b []byte) string {
+	if len(b) == 0 {
+		return "-"
+	}
+	return hex.EncodeToString(b)
+}
+
+func verifUnhex(s string) []byte {
+	if s == "-" {
+		return nil
+	}
+	b, err := hex.DecodeString(s)
+	if err != nil {
+		panic("bad hex field: " + s)
+	}
+	return b
+}
+
+func verifBool(s string) bool { return s == "1" }
+
+func verifInt(s string) int {
+	n, err := strconv.Atoi(s)
+	if err != nil {
+		panic("bad int field: " + s)
+	}
+	return n
+}
+
+func verifCall(op func([]string) string, args []string) (out string) {
+	defer func() {
+		if r := recover(); r != nil {
+			out = "!panic " + verifHex([]byte(fmt.Sprint(r)))
+		}
+	}()
+	return op(args)
+}
+
+func verifServe() {
+	sharedCache = &sharedCacheType{ListedPackages: newListedPackages()}
+	in := bufio.NewReaderSize(os.Stdin, 1<<20)
+	out := bufio.NewWriterSize(os.Stdout, 1<<16)
+	defer out.Flush()
+	for {
+		line, err := in.ReadString('\n')
+		line = strings.TrimRight(line, "\r\n")
+		if line != "" && !strings.HasPrefix(line, "#") {
+			f := strings.Split(line, " ")
+			op := verifOps[f[0]]
+			if op == nil {
+				fmt.Fprintf(out, "!unknown-op %s\n", f[0])
+			} else {
+				fmt.Fprintln(out, verifCall(op, f[1:]))
+			}
+			out.Flush()
+		}
+		if err != nil {
+			return
+		}
+	}
+}
